@@ -556,7 +556,10 @@ class Run:
         self.rec = Rec()
         self.it = make_interp(repo, self.rec, with_X)
         self.est = EstV("estimator", False)
-        self.selfv = construct(repo, self.it, cls, {"estimator": self.est, "window_length": W})
+        # constructed with another window length, which set_params(window_length=w) then replaces: what fit validates and
+        # stores must be the value the object holds at fit time (H4: no copy frozen in __init__)
+        self.selfv = construct(repo, self.it, cls, {"estimator": self.est, "window_length": Lin.sym("w0")})
+        self.selfv.attrs["window_length"] = W
         self.y = Ser("y", N, T)
         self.X = Ser("X", N, T, NX) if with_X else K(None)
         traces, k, fn = run_method(repo, self.it, self.selfv, "fit", {"y": self.y, "X": self.X, "fh": FH}, base_facts(with_X))
@@ -600,6 +603,11 @@ def unflat(x, scitype, ctx, rule, tag, loc, what, run=None, kind=None):
     flat = isinstance(x, Flat) and x.keep == 1
     if run is not None and flat:
         run.orders[kind] = x.order
+    if not flat and scitype == TAB and isinstance(x, Nd) and x.ndim == 2 and run is not None and not run.with_X:
+        # a (rows, features) array built directly: with a single variable this is the row-wise flattening of (rows, 1, features)
+        ctx.ok(rule, tag + ":layout", "%s is a 2-d (rows, lags) array as required by scitype %s" % (what, scitype), loc)
+        run.orders[kind] = "C"
+        return View(x, [("sl", 0, ZERO), ("sl", 2, ZERO)], [x.shape[0], ONE, x.shape[1]])
     ctx.check(flat == (scitype == TAB) if isinstance(x, Nd) else None, rule, tag + ":layout",
               "%s is %s as required by scitype %s" % (what, "flattened row-wise" if flat else "3-d", scitype),
               "%s is %r, which is not the layout scitype %s expects" % (what, x, scitype), loc)
@@ -696,7 +704,9 @@ def rule_reducers(ctx, repo, classes):
             envs = feasible(grid(with_X), facts)
             nonvacuous(ctx, "R2", tag, loc_fit, envs)
             w_attr = as_lin_val(run.selfv.attrs.get("window_length_"))
-            eq_lin(ctx, "R3", tag + ":window_length_", loc_fit, w_attr, W, facts, envs, "window_length_ after fit")
+            envs0 = [Env(dict(e_.ints, w0=e_.ints["w"] + 1), e_.vecs) for e_ in grid(with_X)]
+            eq_lin(ctx, "R3", tag + ":window_length_", loc_fit, w_attr, W, facts, feasible(envs0, facts),
+                   "window_length_ after __init__(window_length=w0); set_params(window_length=w); fit(...)")
             if strat == "direct":
                 fit_direct(ctx, repo, run, tag, sci, facts, envs)
                 pred_direct(ctx, repo, run, tag, sci, facts, envs, multi=False)
@@ -1878,9 +1888,19 @@ def rule_dispatch(ctx, repo):
     # per scenario, with the validators taken as identities (instances :identity above): which scitype indexes the registry
     for given in ["infer"] + sorted(scitypes):
         seen_s = []
+        built = []
 
         def hk2(interp, frame, call, fname, args, kwargs, st, _base=make_hooks(rec, False)):
             simple = (fname or "").split(".")[-1]
+            # construction of the selected class: Forecaster(...) with Forecaster the value of the lookup
+            f_ = call.func
+            callee = st.env.get(f_.id) if isinstance(f_, ast.Name) else (interp.ev(f_, st, frame) if isinstance(f_, ast.Call) else None)
+            if isinstance(callee, Opq) and callee.tag == "Forecaster":
+                initp = astq.param_names(repo.func(RED, "_Reducer.__init__"), skip_self=True)
+                bound = dict(zip(initp, args))
+                bound.update(kwargs)
+                built.append(bound)
+                return Opq("reduction-forecaster")
             if simple in ("_check_strategy", "_check_scitype", "_infer_scitype", "_get_forecaster"):
                 b = astq.bind_call(repo.func(RED, simple), call)
                 vals = {p_: interp.ev(e_, st, frame) for p_, e_ in (b or {}).items() if isinstance(e_, ast.AST)}
@@ -1917,20 +1937,17 @@ def rule_dispatch(ctx, repo):
                       "an explicitly given scitype %r is replaced by %r before the lookup (the caller's choice is ignored, e.g. a "
                       "time-series regressor requested as tabular-regressor)" % (given, keys), locm,
                       witness={"scitype": given, "registry_key": repr(keys)})
-    rets = [o[1] for s, o in traces if o[0] == "return"]
-    calls = [n for n in ast.walk(mr) if isinstance(n, ast.Call) and isinstance(n.func, ast.Name)
-             and any(isinstance(v, ast.Call) and dotted(v.func) == "_get_forecaster" for v in astq.assigned_values(mr, n.func.id))]
-    good = None
-    if len(calls) == 1:
-        kw = {k.arg: dotted(k.value) for k in calls[0].keywords}
-        pos = [dotted(a) for a in calls[0].args]
-        initp = astq.param_names(repo.func(RED, "_Reducer.__init__"), skip_self=True)
-        bound = dict(zip(initp, pos))
-        bound.update(kw)
-        good = bound.get("estimator") == "estimator" and bound.get("window_length") == "window_length" \
-            and not astq.assigned_in(mr, "estimator") and not astq.assigned_in(mr, "window_length")
-    ctx.check(good, "R5", "make_reduction:forwarding", "estimator and window_length are forwarded unchanged to the selected class",
-              "estimator / window_length are not forwarded unchanged to the selected class", locm)
+        # what the selected class is constructed with, on this path
+        c2 = "make_reduction[scitype=%s]:forwarding" % given
+        if not built:
+            ctx.undecided("R5", c2, "no construction of the selected class is interpretable under this scenario", locm)
+        else:
+            bad = [b_ for b_ in built if b_.get("estimator") != P.get("estimator") or b_.get("window_length") != P.get("window_length")]
+            ctx.check(not bad, "R5", c2, "estimator and window_length are forwarded unchanged to the selected class",
+                      "the selected class is constructed with estimator=%r, window_length=%r instead of the caller's arguments"
+                      % ((bad[0].get("estimator"), bad[0].get("window_length")) if bad else ("", "")), locm,
+                      witness={"call": "make_reduction(reg, window_length=5, scitype=%r)" % given,
+                               "window_length_used": repr(bad[0].get("window_length", "class default")) if bad else None})
     return classes
 
 
